@@ -380,7 +380,7 @@ PROPS["C04"] = {
     "gen": ["gen_pseudo_props.py"],
     "lean": ["QV.Props.C04"],
     "streams": ["c04"],
-    "rule": "a quarter of the documents import with a version and a quarter of the handler functions carry a return type annotation (both WARNINGs); acceptance is the library's own Diagnostics::has_error(), cross-checked against the recorded kinds; clean documents, preferring ones with warnings, also run through the real CLI (exit 0, outputs byte-identical to the in-process ones, warning count); 26 fault kinds incl. dynamic members of nested object maps and 1-3 handlers inside object, gadget and attached maps, each of which must be diagnosed inside its own text, two runs reporting the same diagnostics; constants only the header can set (`separator` next to other bindings) are in the ledger. Each case derives from a generated document (object trees over the real Qt 5 metatypes: widgets, the four layouts, "
+    "rule": "a quarter of the documents import with a version and a quarter of the handler functions carry a return type annotation (both WARNINGs); acceptance is the library's own Diagnostics::has_error(), cross-checked against the recorded kinds; clean documents, preferring ones with warnings, also run through the real CLI (exit 0, outputs byte-identical to the in-process ones, warning count); 30 fault kinds, including constants bound to properties whose type the .ui pass cannot serialise (candidates are derived from the metatypes by type: class-typed other than QBrush/QColor/QCursor/QKeySequence/QPixmap, QVariant, object pointers, class-typed attached properties), dynamic members of nested object maps and 1-3 handlers inside object, gadget and attached maps, each of which must be diagnosed inside its own text, two runs reporting the same diagnostics; constants only the header can set (`separator` next to other bindings) and constant object references (`buddy`) are in the ledger. Each case derives from a generated document (object trees over the real Qt 5 metatypes: widgets, the four layouts, "
             "spacers, actions, static separators, menus, tab pages, item views with header.* maps, combo models, explicit `actions` "
             "lists; per object 0-7 constant/dynamic scalar bindings, grouped font/size/rect/size-policy/margins/icon members incl. "
             "groups mixing constant and dynamic members, attached QLayout.*/QTabWidget.* bindings, signal handlers) translated by the "
@@ -401,6 +401,7 @@ PROPS["C04"] = {
         "harness/src/ledger.rs: the classification of generated bindings into the model's abstract attributes (constant / dynamic, "
         "readable / writable, group kind) comes from the generator's own tables; harness/src/xml.rs; header token scan",
         "grouped bindings are modelled one level deep; nested groups (palette.active.window) are outside the modelled fragment",
+        "the harness's classification of property types from the metatypes JSON plus metatype_tweak (which properties are class-typed / variant / pointer)",
     ],
     "assumptions": [
         "layout pseudo-properties flow/columns/rows and consumed QLayout.* attached properties count as 'embedded' (they "
@@ -455,7 +456,7 @@ PROPS["C20"] = {
     "gen": ["gen_pseudo_props.py"],
     "lean": ["QV.Props.C20"],
     "streams": ["c20"],
-    "rule": "each case is a clean document of the C04 generator with one fault (26 kinds × sampled positions; every planted binding of a multi-binding fault must be reported in omit mode; 4 per document in the quick "
+    "rule": "half of the documents live in an in-process directory module with four custom components; every document also gets an unknown type placed above a component instance or above an object a surviving object refers to: the twin is the document with exactly that subtree and the references into it removed, the forms must be equal including <customwidgets>, and a reference to a vanished id must be diagnosed or dropped, never written. Each case is a clean document of the C04 generator with one fault (30 kinds × sampled positions; every planted binding of a multi-binding fault must be reported in omit mode; 4 per document in the quick "
             "tier). c20-local (oracle, on a variant where a third of the unreferenced objects are anonymous): omit mode yields a form; "
             "the planted error is reported with its range inside the planted binding (for the kinds the preview passes can see); the "
             "XML tree of the faulted run equals the tree of the fault-free run (document without the faulty binding / with the "
@@ -484,7 +485,7 @@ PROPS["C20"] = {
                   "with exactly the unresolved subtrees removed). fault_local_full_statement refuted by a kernel-checked witness.",
     "level_note": "trusted: Lean kernel; the pass model tied by exact omit-mode comparison on faulted documents; layout cells and generated "
                   "names are not part of the pass model (cells: C12 model used for the witness; names: C10) — their locality is checked by "
-                  "the XML-tree oracle on real output; preview watcher/viewer (src/main.rs preview_file) not modelled",
+                  "the XML-tree oracle on real output; object references and <customwidgets> are likewise not part of the pass model and are checked by that oracle; preview watcher/viewer (src/main.rs preview_file) not modelled",
     "technique": "Lean 4 proof (non-interference: per-object congruence of the constant pass lifted over the tree, pruning lemma for "
                  "unresolved subtrees) + differential correspondence + faulted-vs-fault-free XML tree comparison on real output",
 }
